@@ -35,6 +35,10 @@ SOURCES = {
     "shadow_Qint2": "def interpret_as_qtype(a: Qint[2]) -> Qint[2]:\n    return a ^ 1\n",
     "shadow_copy": "def copy(a: bool) -> bool:\n    return a\n",
     "shadow_inspect": "def inspect(a: bool) -> bool:\n    return not a\n",
+    # functions named like attributes of the export framework's circuit class
+    "named_h": "def h(a: bool, b: bool) -> bool:\n    return a and not b\n",
+    "named_t": "def t(a: Qint[2]) -> bool:\n    return a == 1\n",
+    "named_size": "def size(a: Qint[2]) -> Qint[2]:\n    return a + 1\n",
     "ifelse": "def test(a: Qint[2], b: bool) -> Qint[2]:\n    c = a\n    if b:\n        c = a + 1\n    else:\n        c = a ^ 1\n    return c\n",
     "forloop": "def test(a: Qlist[bool, 3]) -> bool:\n    s = False\n    for x in a:\n        s = s ^ x\n    return s\n",
 }
@@ -55,7 +59,7 @@ def fingerprint(o):
              "exprs": [(str(s), str(e)) for s, e in o.expressions]}
         qc = getattr(o, "_qcircuit", None)
         if qc is not None:
-            d.update(gates=gate_sig(qc), qmap=dict(qc.qubit_map), nq=qc.num_qubits)
+            d.update(gates=gate_sig(qc), qmap=dict(qc.qubit_map), nq=qc.num_qubits, qcname=qc.name)
             try:
                 d["inq"] = list(o.input_qubits)
                 d["outq"] = list(o.output_qubits)
@@ -66,11 +70,17 @@ def fingerprint(o):
         return {"type": tn, "ast": ast.dump(o.fun_ast), "params": list(o.parameters.keys())}
     if tn in ("Grover", "DeutschJozsa", "BernsteinVazirani", "Simon"):
         qc = o.circuit()
-        return {"type": tn, "gates": gate_sig(qc), "qmap": dict(qc.qubit_map), "nq": qc.num_qubits, "outq": list(o.output_qubits), "n_iter": getattr(o, "n_iterations", None)}
+        return {"type": tn, "gates": gate_sig(qc), "qmap": dict(qc.qubit_map), "nq": qc.num_qubits, "qcname": qc.name, "outq": list(o.output_qubits), "n_iter": getattr(o, "n_iterations", None)}
     if tn in ("QCircuit", "QCircuitEnhanced"):
-        return {"type": tn, "gates": gate_sig(o), "qmap": dict(o.qubit_map), "nq": o.num_qubits}
+        return {"type": tn, "gates": gate_sig(o), "qmap": dict(o.qubit_map), "nq": o.num_qubits, "qcname": o.name}
     if tn == "QuantumCircuit":
         return {"type": tn, "ops": [(i.operation.name, [o.find_bit(q).index for q in i.qubits], [float(x) for x in i.operation.params]) for i in o.data], "nq": o.num_qubits}
+    if tn == "Circuit" and type(o).__module__.startswith("cirq"):
+        import cirq
+
+        return {"type": "cirq.Circuit", "ops": [str(op) for op in cirq.decompose(o, keep=lambda op: not hasattr(op.gate, "_decompose_") or type(op.gate).__module__.startswith("cirq"))]}
+    if isinstance(o, type):
+        return {"type": "class", "name": o.__qualname__}
     if tn == "DecompilerResults":
         return {"type": tn, "sections": [(list(s.index), gate_sig(_W(s.gates)), [(str(a), str(b)) for a, b in s.expressions]) for s in o]}
     if isinstance(o, (str, int, float, bool)) or o is None:
